@@ -55,6 +55,7 @@ func TestC07Retained(t *testing.T) {
 				b := newDNode("B", 2, 0)
 				model := map[string]string{}
 				var names []string
+				var all [][]byte
 				for _, oi := range seq {
 					o := ops[oi]
 					names = append(names, name(o))
@@ -73,6 +74,7 @@ func TestC07Retained(t *testing.T) {
 						return
 					}
 					b.recv(msgs...)
+					all = append(all, msgs...)
 					if o.set {
 						model[o.t] = o.p
 					} else {
@@ -84,8 +86,31 @@ func TestC07Retained(t *testing.T) {
 				if len(model) >= 2 {
 					nontriv.AddString(mk)
 				}
-				for _, n := range []*dnode{a, b} {
-					for _, f := range filters {
+				// further replicas receive the same broadcasts in other orders (all permutations up to 3 updates, reversed beyond)
+				nodes := []*dnode{a, b}
+				var orders [][]int
+				if len(all) <= 3 {
+					orders = permutations(len(all))[1:]
+				} else {
+					rev := make([]int, len(all))
+					for i := range rev {
+						rev[i] = len(all) - 1 - i
+					}
+					orders = [][]int{rev}
+				}
+				for k, ord := range orders {
+					r := newDNode(fmt.Sprintf("R%d", k), uint64(10+k), 0)
+					for _, i := range ord {
+						r.recv(all[i])
+					}
+					nodes = append(nodes, r)
+				}
+				for ni, n := range nodes {
+					fs := filters
+					if ni >= 2 {
+						fs = []string{"#", "m/+", "m/a/#", "m/+/b", "m/a/b/c"}
+					}
+					for _, f := range fs {
 						gets++
 						msgs, err := n.st.Topics().Get([]byte(f))
 						if err != nil {
@@ -107,6 +132,8 @@ func TestC07Retained(t *testing.T) {
 							who := "origin"
 							if n == b {
 								who = "replica"
+							} else if n != a {
+								who = "reordered-replica"
 							}
 							rep.Violate(vk.Violation{Sig: "c07-retained-wrong:" + who + ":" + shape(strings.TrimPrefix(f, "m/")),
 								Msg:    fmt.Sprintf("after %v: Get(%q) on the %s = %v, last non-empty retained payloads matching it: %v", names, f, who, got, want),
